@@ -177,12 +177,57 @@ pub fn maybe_collide(xot: &mut Xot, a: &ANode) -> bool {
     collide_attr_ids(xot, a, if (h / 250) % 5 != 0 { 256 } else { 65_536 })
 }
 
+/// "A tree that has been worked on": detach up to three nodes and put each back exactly where it was, and wrap /
+/// unwrap one node in a scratch element. The abstract tree and every handle stay the same; the arena layout, the
+/// sibling links and the free list do not. One tree in five (decided by the tree's hash).
+pub fn shake(xot: &mut Xot, a: &ANode, h: &HTree) -> Result<usize, String> {
+    let hash = a.structural_hash();
+    if hash % 5 != 3 {
+        return Ok(0);
+    }
+    let nodes: Vec<Node> = h.flat().into_iter().skip(1).collect();
+    if nodes.is_empty() {
+        return Ok(0);
+    }
+    let consolidation = xot.verif_text_consolidation();
+    let mut done = 0;
+    for k in 0..3u64 {
+        let n = nodes[((hash / 7 + k * 2_654_435_761) % nodes.len() as u64) as usize];
+        let parent = match xot.parent(n) {
+            Some(p) => p,
+            None => continue,
+        };
+        let prev_text = xot.previous_sibling(n).map_or(false, |s| xot.is_text(s));
+        let next_text = xot.next_sibling(n).map_or(false, |s| xot.is_text(s));
+        // putting it back must not merge anything
+        if consolidation && ((prev_text && next_text) || (xot.is_text(n) && (prev_text || next_text))) {
+            continue;
+        }
+        let next = xot.next_sibling(n);
+        if k == 2 && !xot.is_text(n) && xot.is_element(parent) {
+            let name = xot.add_name("zz-scratch-wrapper");
+            let w = xot.element_wrap(n, name).map_err(|e| format!("shake: element_wrap failed: {:?}", e))?;
+            xot.element_unwrap(w).map_err(|e| format!("shake: element_unwrap failed: {:?}", e))?;
+        } else {
+            xot.detach(n).map_err(|e| format!("shake: detach failed: {:?}", e))?;
+            match next {
+                Some(s) => xot.insert_before(s, n).map_err(|e| format!("shake: insert_before failed: {:?}", e))?,
+                None => xot.append(parent, n).map_err(|e| format!("shake: append failed: {:?}", e))?,
+            }
+        }
+        done += 1;
+    }
+    Ok(done)
+}
+
 /// Build `a` (document, element or leaf) as a new parentless tree.
 pub fn build(xot: &mut Xot, a: &ANode, route: Route, style: AttrStyle) -> Result<HTree, String> {
     if !maybe_collide(xot, a) {
         age_xot(xot, a);
     }
-    build_rec(xot, a, route, style)
+    let h = build_rec(xot, a, route, style)?;
+    shake(xot, a, &h)?;
+    Ok(h)
 }
 
 fn build_rec(xot: &mut Xot, a: &ANode, route: Route, style: AttrStyle) -> Result<HTree, String> {
